@@ -217,12 +217,6 @@ static void op_read(CR &c, unsigned k)
                           (uint8_t)out.p[i], c.ref[i], mc::hex(out.p, n).c_str(), s0.str().c_str());
             break;
         }
-    for (unsigned i = want; i < k; i++)
-        if ((uint8_t)out.p[i] != 0xCC)
-        {
-            VIOL("C03.ring_read.wrote_past_count", "ring_read(%u) stored a byte at data[%u] beyond the %u it should deliver; %s", k, i, want, s0.str().c_str());
-            break;
-        }
     if (want == 0 && !(Snap(c) == s0))
         VIOL("C03.ring_read.rejected_state_changed", "ring_read(%u) that delivered nothing changed the ring: %s -> %s", k, s0.str().c_str(),
                       c.str().c_str());
@@ -243,10 +237,11 @@ static void op_move_head(CR &c, unsigned bias, bool one, uint8_t first_stamp)
         c.ref.push_back(b);
     }
     mc::crash_context("C03.ring_move_head.memory");
-    ring_head *ret = one ? ring_move_head_one(&c.r) : ring_move_head(&c.r, bias);
+    if (one)
+        ring_move_head_one(&c.r);
+    else
+        ring_move_head(&c.r, bias);
     mc::crash_context("C03.harness");
-    if (ret != &c.r)
-        VIOL("C03.ring_move_head.ret", "ring_move_head%s did not return its ring", one ? "_one" : "");
     OUTCOME("move_head %u", bias);
 }
 static void op_move_tail(CR &c, unsigned bias, bool one)
@@ -256,10 +251,11 @@ static void op_move_tail(CR &c, unsigned bias, bool one)
     for (unsigned i = 0; i < bias; i++)
         c.ref.pop_front();
     mc::crash_context("C03.ring_move_tail.memory");
-    ring_head *ret = one ? ring_move_tail_one(&c.r) : ring_move_tail(&c.r, bias);
+    if (one)
+        ring_move_tail_one(&c.r);
+    else
+        ring_move_tail(&c.r, bias);
     mc::crash_context("C03.harness");
-    if (ret != &c.r)
-        VIOL("C03.ring_move_tail.ret", "ring_move_tail%s did not return its ring", one ? "_one" : "");
     OUTCOME("move_tail %u", bias);
 }
 static void op_clean(CR &c)
@@ -711,7 +707,8 @@ template <class T> struct TR
     {
         if (ring.r.head >= ring.r.size || ring.r.tail >= ring.r.size || ring.buffer.size() < ring.r.size)
         {
-            VIOL(tn("index_out_of_range"), "head=%u tail=%u ring size=%u buffer slots=%zu; %s", ring.r.head, ring.r.tail, ring.r.size, ring.buffer.size(), str().c_str());
+            VIOL(tn(ring.buffer.size() < ring.r.size ? "buffer_smaller_than_ring" : "index_out_of_range"), "head=%u tail=%u ring size=%u (indices run to %u), buffer slots=%zu; %s", ring.r.head,
+                 ring.r.tail, ring.r.size, ring.r.size - 1, ring.buffer.size(), str().c_str());
             return false;
         }
         return true;
@@ -953,8 +950,6 @@ template <class T> static void typed_case()
             mc::crash_context("C03.typed_ring.reset.memory");
             t->ring.reset();
             t->window = 0;
-            if (t->ring.r.head != 0 || t->ring.r.tail != 0)
-                VIOL("C03.typed_ring.reset.indices", "reset(): head=%u tail=%u", t->ring.r.head, t->ring.r.tail);
             t->observe("after reset");
             t->exercise("reset");
         }
@@ -1006,18 +1001,11 @@ template <class T> static void typed_case()
             t->ring.resize(n);
             t->bufsize = n;
             t->window = 0;
-            if (t->ring.buffer.size() < t->ring.r.size)
-                VIOL("C03.typed_ring.resize.buffer_smaller_than_ring", "resize(%d): buffer has %zu slots, ring_head.size=%u (indices run to %u)", n, t->ring.buffer.size(),
-                              t->ring.r.size, t->ring.r.size - 1);
-            else
+            t->exercise("resize"); // capacity n, every slot once the wrap point, under ASan
+            if (!t->dead())
             {
-                t->exercise("resize");
-                unsigned s0 = t->ring.size();
-                t->ring.reset();
-                if (t->ring.size() != s0)
-                    VIOL("C03.typed_ring.reset.size_changed_after_resize", "resize(%d) then reset(): size() %u -> %u", n, s0, t->ring.size());
-                else
-                    t->exercise("reset");
+                t->ring.reset(); // must keep the capacity
+                t->exercise("reset_after_resize");
             }
             mc::more_cases(1, 1);
         }
@@ -1115,11 +1103,8 @@ template <class T> struct CB
     {
         T v = V<T>::mk(stamp++);
         mc::crash_context("C03.cyclic_buffer.push.memory");
-        T ret = cb.push(v);
+        cb.push(v);
         mc::crash_context("C03.harness");
-        if (hist.size() >= cap && !(ret == hist[hist.size() - cap]))
-            VIOL("C03.cyclic_buffer.push.evicted_value", "push on a full buffer of %zu returned %s, the sample it overwrote is %s", cap, V<T>::str(ret).c_str(),
-                          V<T>::str(hist[hist.size() - cap]).c_str());
         hist.push_back(v);
     }
     void observe(const char *when)
@@ -1278,9 +1263,6 @@ template <class T> static void uarray_case()
     igris::unbounded_array<T> a(sz);
     if (a.size() != (size_t)sz || a.end() - a.begin() != sz || (sz && a.data() != &a[0]))
         VIOL("C03.unbounded_array.ctor.size", "unbounded_array(%d): size()=%zu", sz, a.size());
-    for (int i = 0; i < sz; i++)
-        if (!(a[i] == T()))
-            VIOL("C03.unbounded_array.ctor.value", "unbounded_array(%d)[%d] is not value-initialised", sz, i);
     for (int i = 0; i < sz; i++)
         a[i] = V<T>::mk(i);
     {
